@@ -479,15 +479,29 @@ func (g *genCtx) genPolicies(o genOpts) []string {
 		}
 		labels := append([]string{}, wlLabels...)
 		ptype := "sidecar"
-		if r.Chance(1, 4) {
+		extra := ""
+		if r.Chance(1, 3) {
 			// a Gateway API gateway: policies attach by targetRefs (or by selector)
 			gateway = true
 			labels = append(labels, "gateway.networking.k8s.io/gateway-name=gw1")
 			ptype = "router"
+			if r.Chance(1, 2) {
+				// a waypoint: per-service chains (NewBuilderForService) or the HBONE termination layer
+				// (NewWaypointTerminationBuilder); Service / ServiceEntry / GatewayClass targetRefs
+				ptype = "waypoint"
+				svc := wire.Pick(r, []string{"httpbin|foo|k8s", "httpbin|other|k8s", "ext1|foo|ext", "httpbin|foo|ext", "-", "reviews|other|k8s"})
+				extra = " " + wire.Enc(svc)
+				if svc == "-" {
+					extra = " -"
+				}
+				if r.Chance(1, 4) {
+					extra += " term"
+				}
+			}
 		} else if r.Chance(1, 6) {
 			ptype = "router" // a classic ingress gateway: selector based, like a sidecar
 		}
-		lines = append(lines, "wl istio-system "+wns+" "+wire.EncList(labels)+" "+ptype)
+		lines = append(lines, "wl istio-system "+wns+" "+wire.EncList(labels)+" "+ptype+extra)
 	}
 	_ = gateway
 	np := 1 + r.Intn(3)
@@ -543,6 +557,10 @@ func (g *genCtx) genPolicies(o genOpts) []string {
 				{"gateway.networking.k8s.io|Gateway|gw1|"}, {"gateway.networking.k8s.io|Gateway|gw2|"},
 				{"gateway.networking.k8s.io|Gateway|gw2|", "gateway.networking.k8s.io|Gateway|gw1|"},
 				{"|Service|httpbin|"}, {"gateway.networking.k8s.io|Gateway|gw1|foo"},
+				{"|Service|httpbin|"}, {"core|Service|httpbin|"}, {"|Service|reviews|", "|Service|httpbin|"},
+				{"networking.istio.io|ServiceEntry|ext1|"}, {"networking.istio.io|ServiceEntry|httpbin|"},
+				{"gateway.networking.k8s.io|GatewayClass|istio-waypoint|"}, {"gateway.networking.k8s.io|GatewayClass|istio|"},
+				{"networking.istio.io|Service|httpbin|"}, {"|Gateway|gw1|"},
 			}))
 		}
 		lines = append(lines, fmt.Sprintf("pol %s %s %s %s %s %s %s", action, ns, pname, dry, prov, sel, refs))
